@@ -1,3 +1,240 @@
-(* placeholder until the C12 theorems are merged *)
-Example C12_placeholder : True. Proof. exact I. Qed.
-Print Assumptions C12_placeholder.
+(* C12 - code generation round trip.
+   "The module text emitted by the code generators, when executed, yields a configuration equal to
+    the input in callables, arguments, tags and sharing structure; a configuration a generator
+    cannot express is rejected with an error, never emitted inexactly."
+
+   Model: Codegen.gen (shared nodes -> variables, everything else inline, Buildables as constructor
+   calls with int-keyed arguments positionally and names as keywords; None = the generator raises),
+   Lang.run_program true (what executing the emitted `fdl.Config(fn, ...)` text computes, through
+   SignatureInfo.signature_binding), Codegen.canon_heap (configurations are compared up to the
+   storage order of __arguments__).  Statements only; proofs are in theories/Codegen_proofs.v.
+
+   Isomorphism is stated as in C07 / C11 (Iso_proofs): a one-to-one correspondence m between object
+   ids (bij_wf) under which corresponding objects have the same type, callable, argument names,
+   tags and non-reference data and corresponding references (simulates), and which relates the two
+   roots (rel_ref).  One-to-one is the sharing structure: two slots hold the same object in the
+   rebuilt configuration exactly when they do in the input.
+
+   Hypotheses of the main theorem:
+     wf_b       - the input is a well-formed (acyclic) heap;
+     stores_ok  - a boolean check: every reachable Buildable holds a store that its constructor
+                  produces, up to order, from the arguments the emitter writes (sort_store of
+                  signature_binding (sig_of e fn) pos kw, for (pos, kw) = emit_split of the store,
+                  is sort_store of the store), and no reachable node is an empty tuple (the empty
+                  tuple is a leaf in this model).  C12_needs_stores_ok: without it the emitted
+                  call can be rejected by the constructor;
+     contains_buildable - the root is a Buildable or a container holding one: run_program (the
+                  as_buildable semantics) raises otherwise (C12_needs_buildable_root).
+   The fuel bound is explicit: every fuel above the size of the input heap gives the same result. *)
+From Fiddle Require Import PyBase PySlice Sig ArgStore PyCall Heap Traverse Build Iso_proofs
+  Lang Lang_proofs Codegen C12Check Codegen_proofs.
+From Coq Require Import List Permutation.
+Import ListNotations.
+Local Open Scope nat_scope.
+
+(* 1. Faithfulness: executing the generated program rebuilds the input, sharing included, and
+   creates nothing else (one object per object reachable in the input). *)
+Theorem C12_gen_faithful : forall e h r p,
+  wf_b e h = true ->
+  gen e h r = Some p ->
+  stores_ok e h r = true ->
+  contains_buildable (S (length h)) h r = true ->
+  exists h' r',
+    (forall fuel, length h < fuel -> run_program e true fuel [] [] p = (h', Some r')) /\
+    length h' = length (reachable_ids e h r) /\
+    exists m, bij_wf m /\ simulates (canon_heap h') (canon_heap h) m /\ rel_ref m r' r.
+Proof. exact Codegen_proofs.gen_faithful. Qed.
+Print Assumptions C12_gen_faithful.
+
+(* ... in the executable form evaluated by the harness (C12Check.rebuilds, fuel 64): the checker
+   iso_b finds the correspondence *)
+Theorem C12_gen_faithful_check : forall e h r p,
+  wf_b e h = true ->
+  gen e h r = Some p ->
+  stores_ok e h r = true ->
+  contains_buildable (S (length h)) h r = true ->
+  length h < 64 ->
+  rebuilds e h r p = true.
+Proof.
+  exact (fun e h r p H1 H2 H3 H4 H5 => Codegen_proofs.gen_rebuilds_check e h r p H1 H2 H3 H4 64 H5).
+Qed.
+Print Assumptions C12_gen_faithful_check.
+
+(* (iso_b answers true on every pair of configurations that correspond one-to-one, the first of
+   which is acyclic) *)
+Theorem C12_iso_b_complete : forall h1 h2 m,
+  bij_wf m -> simulates h1 h2 m ->
+  (forall i n k, nth_error h1 i = Some n -> In (RP k) (refs_of n) -> k < i) ->
+  forall r1 r2, rel_ref m r1 r2 -> iso_b h1 h2 r1 r2 = true.
+Proof. exact Codegen_proofs.iso_b_complete. Qed.
+Print Assumptions C12_iso_b_complete.
+
+(* the same for the statements and the return expression alone (no test on the kind of the
+   result); moreover the variables of the program hold the copies of the shared nodes: each shared
+   node is named exactly once (ow lists the shared reachable nodes without repetition) *)
+Theorem C12_gen_rebuilds : forall e h r p,
+  wf_b e h = true ->
+  gen e h r = Some p ->
+  stores_ok e h r = true ->
+  exists h1 env h' r',
+    (forall fuel, length h < fuel ->
+       run_body e true fuel [] [] (p_body p) = (h1, Some env) /\
+       eval e true fuel env h1 (p_ret p) = (h', Some r')) /\
+    length h' = length (reachable_ids e h r) /\
+    exists m, bij_wf m /\ simulates (canon_heap h') (canon_heap h) m /\ rel_ref m r' r /\
+      exists ow,
+        Permutation ow (filter (shared_in e h (reachable_ids e h r)) (reachable_ids e h r)) /\
+        Forall2 (fun v i => rel_ref m v (RP i)) env ow.
+Proof. exact Codegen_proofs.gen_rebuilds. Qed.
+Print Assumptions C12_gen_rebuilds.
+
+(* what the boolean side condition says *)
+Theorem C12_stores_ok_spec : forall e h r,
+  stores_ok e h r = true <->
+  forall j n, In j (reachable_ids e h r) -> nth_error h j = Some n ->
+    match n with
+    | NTuple [] => False
+    | NBuildable _ fn st _ =>
+        forall pos kw, emit_split st = Some (pos, kw) ->
+          exists st0, signature_binding (sig_of e fn) pos kw = Some st0 /\
+                      sort_store st0 = sort_store st
+    | _ => True
+    end.
+Proof. exact Codegen_proofs.stores_ok_spec. Qed.
+Print Assumptions C12_stores_ok_spec.
+
+(* a diamond (the Config c is used by the Partial and by the root), a shared list, a Partial with a
+   positional argument, stores not in constructor order: the hypotheses hold, the program has two
+   variables, and the executable statement of C12Check agrees *)
+Example C12_gen_faithful_nonvacuous :
+  wf_b ex_env c12_heap = true /\
+  gen ex_env c12_heap c12_root = Some c12_prog /\
+  stores_ok ex_env c12_heap c12_root = true /\
+  contains_buildable (S (length c12_heap)) c12_heap c12_root = true /\
+  (exists h' r', run_program ex_env true 5 [] [] c12_prog = (h', Some r') /\
+                 iso_b (canon_heap h') (canon_heap c12_heap) r' c12_root = true) /\
+  rebuilds ex_env c12_heap c12_root c12_prog = true.
+Proof.
+  repeat (split; [vm_compute; reflexivity |]).
+  split; [| vm_compute; reflexivity].
+  do 2 eexists. split; vm_compute; reflexivity.
+Qed.
+
+(* the side condition is a property of the stores, not of their order: the rebuilt configuration
+   holds its arguments in the constructor's order, the input did not *)
+Example C12_gen_faithful_order :
+  exists h' r', run_program ex_env true 5 [] [] c12_prog = (h', Some r') /\
+                h' <> c12_heap /\ canon_heap h' = canon_heap c12_heap.
+Proof.
+  do 2 eexists. split; [vm_compute; reflexivity |]. split; [discriminate | vm_compute; reflexivity].
+Qed.
+
+(* the side conditions are needed *)
+Theorem C12_needs_stores_ok :
+  exists e h r p,
+    wf_b e h = true /\ gen e h r = Some p /\
+    contains_buildable (S (length h)) h r = true /\
+    stores_ok e h r = false /\
+    ~ exists h' r', forall fuel, length h < fuel -> run_program e true fuel [] [] p = (h', Some r').
+Proof. exact Codegen_proofs.needs_stores_ok. Qed.
+Print Assumptions C12_needs_stores_ok.
+
+Theorem C12_needs_buildable_root :
+  exists e h r p,
+    wf_b e h = true /\ gen e h r = Some p /\ stores_ok e h r = true /\
+    contains_buildable (S (length h)) h r = false /\
+    ~ exists h' r', forall fuel, length h < fuel -> run_program e true fuel [] [] p = (h', Some r').
+Proof. exact Codegen_proofs.needs_buildable_root. Qed.
+Print Assumptions C12_needs_buildable_root.
+
+(* the third clause of stores_ok: an empty tuple held as a node (no encoder produces one) is
+   re-created as the leaf () *)
+Example C12_empty_tuple_is_a_leaf :
+  wf_b ex_env c12_emptytuple_heap = true /\
+  stores_ok ex_env c12_emptytuple_heap (RP 1) = false /\
+  gen ex_env c12_emptytuple_heap (RP 1) = Some (mkprog [] (ECall 10 [] [(1%N, ETuple [])])) /\
+  run_program ex_env true 5 [] [] (mkprog [] (ECall 10 [] [(1%N, ETuple [])]))
+  = ([NBuildable BConfig 10 [(KName 1, RA AEmptyTuple)] []], Some (RP 0)).
+Proof. repeat split; vm_compute; reflexivity. Qed.
+
+(* 2. Rejection: when the generator answers, every reachable object is a list, a tuple, a dict, or
+   an untagged Config / Partial whose arguments the emitter can split (int keys contiguous);
+   anything else - a tagged Buildable, an ArgFactory, a TaggedValue, an object, a
+   functools.partial, a namedtuple, a defaultdict, a set, an opaque value, int keys with a gap -
+   makes it raise: never an inexact program. *)
+Theorem C12_gen_expressible : forall e h r p,
+  wf_b e h = true -> gen e h r = Some p ->
+  forall j, In j (reachable_ids e h r) ->
+  exists n, nth_error h j = Some n /\
+    match n with
+    | NList _ | NTuple _ | NDict _ => True
+    | NBuildable BConfig _ st [] | NBuildable BPartial _ st [] => exists pk, emit_split st = Some pk
+    | _ => False
+    end.
+Proof. exact Codegen_proofs.gen_expressible_kinds. Qed.
+Print Assumptions C12_gen_expressible.
+
+Theorem C12_gen_rejects : forall e h r j n,
+  wf_b e h = true -> In j (reachable_ids e h r) -> nth_error h j = Some n ->
+  match n with
+  | NList _ | NTuple _ | NDict _ => False
+  | NBuildable BConfig _ st [] | NBuildable BPartial _ st [] => emit_split st = None
+  | _ => True
+  end ->
+  gen e h r = None.
+Proof. exact Codegen_proofs.gen_rejects_kinds. Qed.
+Print Assumptions C12_gen_rejects.
+
+(* the emitter splits a store exactly when its int keys are 0 .. n-1, in any order *)
+Theorem C12_emit_split_contiguous : forall st,
+  (exists pk, emit_split st = Some pk) <->
+  let ks := flat_map (fun kv => match fst kv with KPos z => [z] | KName _ => [] end) st in
+  Permutation ks (map Z.of_nat (nat_seq 0 (length ks))).
+Proof. exact Codegen_proofs.emit_split_contiguous_keys. Qed.
+Print Assumptions C12_emit_split_contiguous.
+
+(* ... and what it emits are the stored values, rearranged: nothing dropped, nothing repeated *)
+Theorem C12_emit_split_complete : forall st pos kw,
+  emit_split st = Some (pos, kw) -> Permutation (pos ++ map snd kw) (map snd st).
+Proof. exact (fun st pos kw H => proj2 (Codegen_proofs.emit_split_perm st pos kw H)). Qed.
+Print Assumptions C12_emit_split_complete.
+
+Example C12_gen_rejects_tagged :
+  wf_b ex_env c12_tagged_heap = true /\
+  In 0 (reachable_ids ex_env c12_tagged_heap (RP 1)) /\
+  nth_error c12_tagged_heap 0 = Some (NBuildable BConfig 10 [(KName 1, RA (AInt 1))] [(KName 1, [77%N])]) /\
+  gen ex_env c12_tagged_heap (RP 1) = None.
+Proof.
+  split; [reflexivity |]. split; [vm_compute; auto |].
+  split; [reflexivity | vm_compute; reflexivity].
+Qed.
+
+Example C12_gen_rejects_gap_and_object :
+  gen ex_env c12_gap_heap (RP 0) = None /\ gen ex_env c12_obj_heap (RP 1) = None.
+Proof. split; vm_compute; reflexivity. Qed.
+
+(* 3. Variables: the program declares one variable per shared reachable node, and none for a tree. *)
+Theorem C12_variables_are_shared : forall e h r p,
+  wf_b e h = true -> gen e h r = Some p ->
+  length (p_body p)
+  = length (filter (shared_in e h (reachable_ids e h r)) (reachable_ids e h r)).
+Proof. exact Codegen_proofs.gen_variables. Qed.
+Print Assumptions C12_variables_are_shared.
+
+Theorem C12_tree_has_no_variables : forall e h r p,
+  wf_b e h = true -> gen e h r = Some p ->
+  (forall i, In i (reachable_ids e h r) -> shared_in e h (reachable_ids e h r) i = false) ->
+  p_body p = [].
+Proof. exact Codegen_proofs.gen_tree_no_variables. Qed.
+Print Assumptions C12_tree_has_no_variables.
+
+Example C12_variables_are_shared_nonvacuous :
+  filter (shared_in ex_env c12_heap (reachable_ids ex_env c12_heap c12_root))
+         (reachable_ids ex_env c12_heap c12_root) = [1; 0] /\
+  length (p_body c12_prog) = 2 /\
+  (exists p, gen ex_env c12_tree_heap (RP 2) = Some p /\ p_body p = [] /\
+             rebuilds ex_env c12_tree_heap (RP 2) p = true).
+Proof.
+  split; [vm_compute; reflexivity |]. split; [reflexivity |].
+  eexists. split; [vm_compute; reflexivity |]. split; [reflexivity | vm_compute; reflexivity].
+Qed.
